@@ -781,6 +781,16 @@ static std::string op_xlate(const toks_t& t)
     rep_t rep; std::memcpy(&rep, reinterpret_cast<void*>(celladdr), sizeof(rep));
     return "OK " + std::to_string(rep);
   }
+  if (path == "malloc") {
+    // the allocator's answer (a representation the back end returns) converted by malloc_in_sandbox: 0 is a failed allocation
+    auto impl = sbA.get_sandbox_impl();
+    impl->malloc_override = true;
+    impl->malloc_override_val = static_cast<rep_t>(v);
+    const void* r = nullptr;
+    try { r = sbA.malloc_in_sandbox<char>(1).UNSAFE_unverified(); } catch (...) { impl->malloc_override = false; throw; }
+    impl->malloc_override = false;
+    return "OK " + addr_s(r);
+  }
   if (path == "ret") { g_ret_rep = static_cast<rep_t>(v); auto r = sbA.invoke_sandbox_function(retp); return "OK " + addr_s((const void*)r.UNSAFE_unverified()); }
   if (path == "arg") { auto q = mkptr<char>(v); g_guest_seen = 0xDEAD; sbA.invoke_sandbox_function(takep, q); return "OK " + std::to_string(g_guest_seen); }
   if (path == "argnull") { g_guest_seen = 0xDEAD; sbA.invoke_sandbox_function(takep, nullptr); return "OK " + std::to_string(g_guest_seen); }
